@@ -21,7 +21,7 @@ RULE = ("cases = all token sequences <= L over the splitter alphabet (incl. back
 ASSUMPTIONS = ["a line is terminated by U+000A only (repository convention)", "raw of duplicate wrappers = raw of the wrapped block"]
 MIN = {"tiling": (100000, 1000000), "block_line": (100000, 1000000), "field_line": (5000, 50000), "failed_block_tiling": (1000, 10000)}
 
-ALPHA = ["@a", "@comment", "@string", "{", "}", '"', ",", "=", "\n", " ", "\\", "x", "\r\n", "#"]
+ALPHA = ["@a", "@comment", "@string", "{", "}", '"', ",", "=", "\n", " ", "\\", "x", "\r\n", "#", "%"]
 
 
 def _L(tier):
@@ -41,7 +41,7 @@ FAMILY = [
     "@a{k, t = {a} \"\n@b{j}", "@a{k,\n t = {a} =\n}\n@b{j}", "@string{s = {a}", "@string{s {a}}\n@b{j}", "@a{k=1}\n@b{j}",
     "@a{k\"1}\n@b{j}", "@a{k{1}\n@b{j}", "@a{k, t = 1,\n = }\n@b{j}", "x\\", "\\", "@a{k}\\", "@a{k, t = {\\}}\n@b{j}",
     "@a{k, a=1, a=2}\n@a{k, b=3}\n@string{s=1}@string{s=2}", "% only a comment", "@", "@a", "@a{", "@a{k", "@a{k,", "@a{k, t", "@a{k, t =",
-    "@a{k, t = {", "@a{k, t = {x}", "@a{k, t = {x},", "\ufeff% c\n@a{k}", "\ufeff@a{k}", "\ufeff\n\nfoo\n@a{k}", "\ufeff", "x\ufeff\n@a{k}\ufeff", " @a{k} x\x0b\x0c\x1c\x85@b{j}", "\r@a{k}\r@b{j}\rx",
+    "@a{k, t = {", "@a{k, t = {x}", "@a{k, t = {x},", "@a{k,\n % year = 1968\n t = {multi\nline\n},\n u = 1\n}\n@b{j}", "@a{k, % c\n t\n =\n {x}\n ,}\nfoo", "\ufeff% c\n@a{k}", "\ufeff@a{k}", "\ufeff\n\nfoo\n@a{k}", "\ufeff", "x\ufeff\n@a{k}\ufeff", " @a{k} x\x0b\x0c\x1c\x85@b{j}", "\r@a{k}\r@b{j}\rx",
 ]
 
 
